@@ -6,11 +6,10 @@ from concurrent.futures import ThreadPoolExecutor
 from .. import env, report, terms, tlc, universes as U, wire, writer
 
 
-def main(tier: str) -> int:
-    run = report.Run("C18", "model_checking", tier)
-    seed = env.seed()
-    unis = U.c18_universes()
-    n_beh = 120 if tier == "quick" else 1500
+def undersized_campaign(seed: int, n_beh: int, only=None):
+    """Simulate PyWriter over the undersized-table universes, replay into real Streams (stopped at the first refusal), judge the bytes.
+    Returns (cases, verdicts, tlc_states)."""
+    unis = {k: v for k, v in U.c18_universes().items() if only is None or any(k.startswith(o) for o in only)}
     subs = writer.substitutions(seed)
 
     def sim(k):
@@ -39,6 +38,14 @@ def main(tier: str) -> int:
                            "exp": [terms.jitem(terms.norm_item(it)) for it in res["accepted"]]})
     verdicts = tlc.judge(traces)
     jstats = verdicts.pop("__stats__")
+    return cases, verdicts, gen_states, jstats, predicted
+
+
+def main(tier: str) -> int:
+    run = report.Run("C18", "model_checking", tier)
+    seed = env.seed()
+    cases, verdicts, gen_states, jstats, predicted = undersized_campaign(seed, 120 if tier == "quick" else 1500)
+
     raised = bad_real = 0
     samples = []
     for i, case in enumerate(cases):
